@@ -14,6 +14,9 @@ import numpy as np
 
 VERIF = Path(os.environ.get("VF_VERIF", Path(__file__).resolve().parent.parent))
 REPO = Path(os.environ.get("VF_REPO", "/repo"))
+# runs against a scratch worktree (VF_REPO=...) must not overwrite the evidence and replays of /repo
+OUT_ROOT = Path(os.environ.get("VF_VERIF", str(Path(__file__).resolve().parent.parent))) if REPO == Path("/repo") else \
+    Path(os.environ.get("VF_VERIF", str(Path(__file__).resolve().parent.parent))) / ".cache" / "alt" / REPO.name
 TREE_HASH = os.environ.get("VF_TREE_HASH", "nohash")
 CACHE = VERIF / ".cache"
 TMP = CACHE / "tmp"
@@ -110,7 +113,7 @@ def load_known():
 
 
 def write_replay(prop: str, v: Violation) -> str:
-    d = VERIF / "replays" / prop
+    d = OUT_ROOT / "replays" / prop
     d.mkdir(parents=True, exist_ok=True)
     body = v.to_json()
     h = digest(body)
@@ -177,8 +180,8 @@ def finish(report: Report, tier: str, seed: int, t0: float, level="exploration")
         status = 2
         lines.append(f"INCONCLUSIVE property={prop} reason=fewer-than-2-nontrivial-cases")
         ev["coverage"]["verdict"] = "inconclusive"
-    evp = VERIF / "evidence" / f"{prop}.json"
-    evp.parent.mkdir(exist_ok=True)
+    evp = OUT_ROOT / "evidence" / f"{prop}.json"
+    evp.parent.mkdir(parents=True, exist_ok=True)
     text = jdump(ev, indent=1)
     try:
         import jsonschema
